@@ -47,12 +47,55 @@ Proof.
     reflexivity.
 Qed.
 
+(** the actions whose occurrences store the values given on the command line: Set / Append, and -- since the model's
+    configuration gate follows action.rs ([ValueRange::OPTIONAL] for the two flag actions) -- SetTrue / SetFalse given
+    a value (`--flag=false`; a positional flag with [num_args(0..=1)]) *)
+Definition stores_given (a : arg) : Prop :=
+  a_get_action a = ASet \/ a_get_action a = AAppend \/ a_get_action a = ASetTrue \/ a_get_action a = ASetFalse.
+
+(** [Sources.react_cmdline_values] for the two flag actions: the values of the occurrence are stored as given whenever
+    there are any (without values the flag literal is stored instead) *)
+Lemma react_cmdline_values_flag idn a raw ti st st' pr :
+  find_group c (a_id a) = None ->
+  a_get_action a = ASetTrue \/ a_get_action a = ASetFalse ->
+  react_core c idn SCmdLine a raw ti st = ROk (st', pr) ->
+  exists e vs, fm_get (a_id a) (mt_args (mt st')) = Some e /\ m_source e = Some SCmdLine
+    /\ delimit c a (fst (react_vals a raw ti)) (snd (react_vals a raw ti)) = Some vs
+    /\ (vs <> [] -> last (m_raw e) [] = vs).
+Proof.
+  intros Hg Hact H. rewrite react_core_unfold in H. cbn [is_cmdline] in H.
+  destruct (verify_num_args _ _ _ _); [|discriminate|discriminate]. cbn [rbind] in H.
+  unfold react_tail in H. destruct (delimit c a _ _) as [vs|] eqn:Ed; [|discriminate]. cbn [expect rbind] in H.
+  assert (Hstore : forall w m1 (sx : ps),
+    (do m2 <- start_custom_arg c a SCmdLine m1;
+     do st' <- push_arg_values c a w (sx <| mt := m2 |>); ROk (st', PRValuesDone)) = ROk (st', pr) ->
+    exists e, fm_get (a_id a) (mt_args (mt st')) = Some e /\ m_source e = Some SCmdLine /\ last (m_raw e) [] = w).
+  { intros w m1 sx Hq.
+    destruct (start_custom_arg c a SCmdLine m1) as [m2| |] eqn:E1; [|discriminate|discriminate]. cbn [rbind] in Hq.
+    destruct (push_arg_values c a w _) as [s2| |] eqn:E2; [|discriminate|discriminate]. cbn [rbind] in Hq.
+    inversion Hq; subst s2. destruct (start_custom_arg_cl_entry c a m1 m2 Hg E1) as [e0 [gs [G0 [R0 S0]]]].
+    apply push_arg_values_spec in E2. destruct E2 as [_ [_ [_ [_ [_ He]]]]].
+    destruct (He e0 gs [] G0 R0) as [e' [G' [S' [R' _]]]].
+    exists e'. split; [exact G'|]. split; [congruence|]. rewrite R'. cbn [app]. apply last_last. }
+  destruct Hact as [Ha|Ha]; rewrite Ha in H.
+  - match type of H with context [mt_remove (mt ?S) ?I] => destruct (mt_remove (mt S) I) as [m1 removed] end.
+    destruct (removed && _); [discriminate|].
+    destruct (Hstore _ _ _ H) as [e [G [S L]]].
+    exists e, vs. split; [exact G|]. split; [exact S|]. split; [reflexivity|].
+    intros Hne. rewrite L. destruct vs; [contradiction|reflexivity].
+  - match type of H with context [mt_remove (mt ?S) ?I] => destruct (mt_remove (mt S) I) as [m1 removed] end.
+    destruct (removed && _); [discriminate|].
+    destruct (Hstore _ _ _ H) as [e [G [S L]]].
+    exists e, vs. split; [exact G|]. split; [exact S|]. split; [reflexivity|].
+    intros Hne. rewrite L. destruct vs; [contradiction|reflexivity].
+Qed.
+
 (** (2): closing the occurrence of the sink positional that holds [earlier ++ t] (trailing index
     at or before the first value of [t]) leaves an entry whose last value group is the earlier
     values (delimited as usual) followed by [t] in its stored form *)
 Theorem sink_resolve st p a earlier t k st' :
   find_group c (a_id a) = None ->
-  a_get_action a = ASet \/ a_get_action a = AAppend ->
+  stores_given a ->
   mt_pending (mt st) = Some p -> find_arg c (p_id p) = Some a ->
   p_raw p = earlier ++ t -> t <> [] -> p_trailing_idx p = Some k -> k <= N.of_nat (length earlier) ->
   resolve_pending c st = ROk st' ->
@@ -66,7 +109,17 @@ Proof.
     cbn [rbind]; try discriminate.
   intros E. injection E as <-. cbn [fst].
   pose proof (Spelling.react_core_pending _ _ _ _ _ _ _ _ _ Er) as Hpend.
-  destruct (react_cmdline_values c _ a _ _ _ _ _ Hg Hact Er) as (e & vs & Ge & Se & Dv & Lv).
+  assert (Hvals : exists e vs, fm_get (a_id a) (mt_args (mt s2)) = Some e /\ m_source e = Some SCmdLine
+            /\ delimit c a (fst (react_vals a (p_raw p) (p_trailing_idx p))) (snd (react_vals a (p_raw p) (p_trailing_idx p))) = Some vs
+            /\ (vs <> [] -> last (m_raw e) [] = vs)).
+  { destruct Hact as [Ha|[Ha|[Ha|Ha]]].
+    - destruct (react_cmdline_values c _ a _ _ _ _ _ Hg (or_introl Ha) Er) as (e & vs & Ge & Se & Dv & Lv).
+      exists e, vs. repeat split; try assumption. intros _. exact Lv.
+    - destruct (react_cmdline_values c _ a _ _ _ _ _ Hg (or_intror Ha) Er) as (e & vs & Ge & Se & Dv & Lv).
+      exists e, vs. repeat split; try assumption. intros _. exact Lv.
+    - exact (react_cmdline_values_flag _ a _ _ _ _ _ Hg (or_introl Ha) Er).
+    - exact (react_cmdline_values_flag _ a _ _ _ _ _ Hg (or_intror Ha) Er). }
+  destruct Hvals as (e & vs & Ge & Se & Dv & Lv0).
   assert (Hne : p_raw p <> []) by (rewrite Hraw; destruct earlier; [exact Ht|discriminate]).
   assert (Erv : react_vals a (p_raw p) (p_trailing_idx p) = (p_raw p, p_trailing_idx p)).
   { unfold react_vals. destruct (p_raw p); [contradiction|reflexivity]. }
@@ -79,6 +132,7 @@ Proof.
     { unfold tail_form in E2. destruct (is_set s_dont_delimit_trailing c); [injection E2 as <-; exact Ht|].
       exact (delimit_nonempty c a t None t' Ht E2). }
     destruct early'; cbn [app]; [exact Ht'|discriminate]. }
+  pose proof (Lv0 Hvs) as Lv.
   assert (Hm : m_raw e <> []) by (intros Hm; rewrite Hm in Lv; cbn in Lv; apply Hvs; symmetry; exact Lv).
   exists e, (removelast (m_raw e)), early', t'.
   split; [exact Ge|]. split; [rewrite <- Lv; apply app_removelast_last; exact Hm|].
